@@ -464,6 +464,11 @@ func runBubble(p Plan) (v hk.Verdict) {
 				}
 			}
 		case "watchfor":
+			if p.Variant != "wrap" {
+				// over gRPC every store call and hand-over belongs to the actor "server": per-actor attribution is impossible
+				continue
+			}
+
 			if as.err != nil && as.done && p.Variant == "wrap" {
 				v.Failf("WatchFor by %s failed: %v", as.name, as.err)
 
@@ -507,6 +512,10 @@ func runBubble(p Plan) (v hk.Verdict) {
 				}
 			}
 		case "ctx":
+			if p.Variant != "wrap" {
+				continue
+			}
+
 			if as.err != nil {
 				if p.Variant == "wrap" {
 					v.Failf("ContextWithTeardown by %s failed: %v", as.name, as.err)
@@ -587,6 +596,34 @@ func runBubble(p Plan) (v hk.Verdict) {
 				v.NonTrivial = true
 
 				v.Label("interleaved-commit:" + as.a.K)
+			}
+		}
+	}
+
+	if p.Variant != "wrap" {
+		// over gRPC all calls are the server's: count commits on the helper's resource during its lifetime instead
+		for _, as := range actors {
+			if as.a.K != "tad" && as.a.K != "teardown" {
+				continue
+			}
+
+			n := 0
+
+			end := len(commits)
+			if as.finSet {
+				end = as.finished
+			}
+
+			for i := p0; i < end && i < len(commits); i++ {
+				if commits[i].New.Key == as.key {
+					n++
+				}
+			}
+
+			if n >= 2 {
+				v.NonTrivial = true
+
+				v.Label("grpc-commits-during-helper:" + as.a.K)
 			}
 		}
 	}
